@@ -362,9 +362,72 @@ def gen_free(rng, tier):
         yield base(U, progs, [rng.randrange(100)], warm=rng.random() < 0.4)
 
 
+# ------------------------------------------------------------------ document-level threads
+def _doc_ops(rng, U):
+    """document-level calls for the threads: parse / render / decode through the shared instances. The parser
+    configuration is the default one in every call (the harness assigns it per call: different values would be
+    a race of the harness, not of the library); reset() is left to the forced schedules (C19-F2)."""
+    return [o for o in G.rand_docs(rng, U) if "cfg" not in o and o["k"] not in ("reset", "find_type")]
+
+
+def gen_free_docs(rng, tier):
+    n = 25 if tier == "quick" else 600
+    for _ in range(n):
+        U = G.rand_universe(rng, n=rng.randint(2, 5), declared=rng.random() < 0.7, clean=True)
+        docs = _doc_ops(rng, U)
+        if not docs:
+            continue
+        progs = [rng.choice(docs) for _ in range(rng.randint(2, 12))]
+        yield {"universe": U, "progs": progs, "seed": rng.randrange(100), "warm": rng.random() < 0.3}
+
+
+def check_free_docs(a):
+    """2-12 free-running threads parse, render, encode and decode through ONE context, ONE XmlParser, ONE JsonParser,
+    ONE serializer of every kind (the instances the documentation recommends sharing), with a forced yield at every
+    instrumented access of the context; every call must return what it returns alone on fresh instances"""
+    from props import c14 as H
+
+    U = a["universe"]
+    realm = L.Realm(U)
+    try:
+        realm.set_world(len(U), 0)
+        alone = [H.doc_call(realm, H.make_kit(realm.context()), p) for p in a["progs"]]
+        sch = YieldingScheduler()
+        ctx = hooked_context(sch, realm.pkg, warm=bool(a.get("warm")))
+        kit = H.make_kit(ctx)
+        res = sch.run([(lambda p=p: H.doc_call(realm, kit, p)) for p in a["progs"]], [a.get("seed", 0)])
+        for i, ((kind, v), y) in enumerate(zip(res, alone)):
+            x = v if kind == "ok" else {"err": "LEAK:" + type(v).__name__}
+            if x != y:
+                return (f"thread {i} {json.dumps(a['progs'][i])[:160]} returned {json.dumps(x)[:160]} in a free-running "
+                        f"{len(a['progs'])}-thread execution through shared parser/serializer/context but {json.dumps(y)[:160]} alone")
+    finally:
+        realm.close()
+    return None
+
+
+def covered_forced(a, msg=""):
+    """forced schedules are deterministic: a failing input belongs to a listed finding when it has the shape the
+    finding describes (covered_conc, decidable on the input) AND every thread returns exactly what the interleaved
+    model of the unchanged code computes for this schedule (replay through the driver op conc.run), the failing
+    thread included. Another outcome under a schedule of the same shape is reported."""
+    fid = covered_conc(a, msg)
+    if fid is None:
+        return None
+    from framework import Driver
+
+    try:
+        mo = Driver().run([{"op": "conc.run", "args": a}])[0]["ok"]["results"]
+        outs, _, _ = run_forced(a)
+    except Exception:  # noqa: BLE001  (no driver / no answer: nothing can be attributed to a finding)
+        return None
+    return fid if mo == outs and mo != alone_results(a) else None
+
+
 ORACLES = [
-    Oracle("forced-interleavings", gen_conc, check_forced, covered_conc, from_ops=("conc.run",)),
+    Oracle("forced-interleavings", gen_conc, check_forced, covered_forced, from_ops=("conc.run",)),
     Oracle("free-running", gen_free, check_free, covered_conc),
+    Oracle("free-running-documents", gen_free_docs, check_free_docs),
 ]
 
 
@@ -414,7 +477,8 @@ LEVEL_NOTE = (
     "build, no preemption inside C code, no memory-model effects); find_types' returned list is treated as a value "
     "at the time of the final read. Classes/modules loaded during the concurrent phase, find_type_by_fields / "
     "local_names_match threads, parser/serializer per-call state and the match_namespace memo are not part of the "
-    "interleaved model; the free-running oracle exercises them on the real code only."
+    "interleaved model; the oracle free-running-documents exercises them on the real code only (2-12 threads parsing, rendering, "
+    "encoding and decoding through one shared context, parser and serializer of every kind, compared with fresh instances run alone)."
 )
 TRUSTED = [
     "harness/props/conclib.py: an instrumented dict (cache), properties over the xsi_cache / sys_modules slots of a harness-side XmlContext subclass (assignment parks; reading xsi_cache yields a parking view of the published dict object) and an is_binding_model override (thread-local step per binding class) park threads; one release = one model step",
